@@ -201,6 +201,10 @@ static enum cc_stat expand_capacity(CC_PQueue *pq)
             new_capacity = CC_MAX_ELEMENTS;
     }
 
+    /* The buffer size in bytes must not wrap around. */
+    if (new_capacity > CC_MAX_ELEMENTS / sizeof(void*))
+        return CC_ERR_MAX_CAPACITY;
+
     void **new_buff = pq->mem_alloc(new_capacity * sizeof(void*));
 
     if (!new_buff)
